@@ -215,7 +215,9 @@ int __real_poll (struct pollfd *, nfds_t, int);
 int __wrap_poll (struct pollfd *pfd, nfds_t n, int timeout) {
 	if (!in_call) return __real_poll (pfd, n, timeout);
 	Entry *e = pop (S_poll); iss ("poll:%d:%d:%d:%lu", pfd->fd, (int) pfd->events, timeout, (unsigned long) n);
-	if (!e->is_err && e->ret > 0) pfd->revents = pfd->events;
+	/* `v=` on a successful poll line: extra revents bits the kernel reports together with readiness
+	 * (POLLHUP 16, POLLERR 8, …); the library only looks at poll's return value */
+	if (!e->is_err && e->ret > 0) pfd->revents = (short) (pfd->events | (short) e->val);
 	return (int) fin (e);
 }
 int __real_shutdown (int, int);
